@@ -63,7 +63,7 @@ func drawPool(r *rng, aggressive bool) simsync.PoolConfig {
 }
 
 func drawPlan(r *rng, stateful bool) kernel.Plan {
-	p := kernel.Plan{Seed: r.u64(), PredTruePct: []int{50, 80, 20, 100, 65}[r.intn(5)], StateKeys: 1 + r.intn(3), MaxEvents: 600}
+	p := kernel.Plan{Seed: r.u64(), PredTruePct: []int{50, 80, 20, 100, 65, 90, 100, 75}[r.intn(8)], StateKeys: 1 + r.intn(3), MaxEvents: 600}
 	if stateful {
 		p.ClonerPct = []int{0, 30, 60}[r.intn(3)]
 	}
@@ -125,10 +125,10 @@ func drawInputs(r *rng, g *gen.Grammar, n, maxLen int) [][]byte {
 	seen := map[string]bool{}
 	for tries := 0; len(out) < n && tries < 10*n; tries++ {
 		var in []byte
-		switch r.intn(4) {
-		case 0:
+		switch r.intn(6) {
+		case 0, 1, 2:
 			in = g.SampleInput(r2{r}, maxLen)
-		case 1, 2:
+		case 3, 4:
 			in = gen.Mutate(r2{r}, g.SampleInput(r2{r}, maxLen), maxLen)
 		default:
 			al := []string{"a", "b", "c", "\n", "é", "日", "A"}
